@@ -31,6 +31,8 @@ MANIFEST = {
 
 REQUIRED = ["KV.C07.count_block_indep", "KV.C07.lmplz_indep", "KV.C07.lmplz_indep_final",
             "KV.C07.collapse_partition_indep", "KV.C07.prune_partition_indep",
+            "KV.C07.collapse_marks_everywhere", "KV.C07.collapse_marked_partition_indep",
+            "KV.C07.collapse_without_remark_depends_on_blocks",
             "KV.C07.lmplz_indep_vocab", "KV.C07.sort_hyp_discharged", "KV.C07.sort_hyp_discharged_code",
             "KV.C07.count_blocks_nodup", "KV.C07.chain_stream_deterministic",
             "KV.C07.lmplz_eq_spec_discharged", "KV.C07.lmplz_indep_discharged",
